@@ -303,7 +303,7 @@ package gnet
 //@ pred aftercb(c *conn, l *eventloop, fd int) := c.loop == l && c.fd == fd && elwf(l) &&
 //@     (c.opened ==> CI(c)) && (!c.opened ==> c.phase == 2 && nclose[c] == 1 && reg(l.connections, fd) != c && CZ(c))
 // CZ: a closed stream connection holds no data and no pooled memory; its (empty) buffers stay well-formed.
-//@ pred CZ(c *conn) := !c.opened && !c.isDatagram && elastic.bwf(c.outboundBuffer) && ocnt(c) == 0 && iwf(c) && icnt(c) == 0
+//@ pred CZ(c *conn) := !c.opened && !c.isDatagram && elastic.bwf(c.outboundBuffer) && ocnt(c) == 0 && iwf(c) && icnt(c) == 0 && ringsep(c)
 //
 // release: the connection is marked closed and gives its buffers back.
 //@ func (c *conn) release()
@@ -338,7 +338,7 @@ package gnet
 //@   modifies-all-except eventloop, engine, Options, netpoll.Poller, listener, map[int]*listener, ghost:kdata, ghost:kpos, ghost:nopen if action == Close && c.opened && reg(el.connections, c.fd) != nil
 //@   ensures c.loop == el && c.fd == old(c.fd) && elwf(el)
 //@   ensures action == Shutdown ==> err == errorx.ErrEngineShutdown
-//@   ensures action == Close && old(c.opened && reg(el.connections, c.fd) != nil) ==> !c.opened && c.phase == 2 && nclose[c] == 1 && owner[c.fd] == nil
+//@   ensures action == Close && old(c.opened && reg(el.connections, c.fd) != nil) ==> !c.opened && c.phase == 2 && nclose[c] == 1 && owner[c.fd] == nil && reg(el.connections, c.fd) != c && CZ(c)
 //@   ensures action != Close && action != Shutdown ==> err == nil
 //@   ensures action != Close && c.opened ==> (old(CI(c)) ==> CI(c))
 //
@@ -360,7 +360,7 @@ package gnet
 //@   arith unchecked sent byte counts stay far below 2^63
 //@   modifies-all-except eventloop, engine, Options, netpoll.Poller, listener, map[int]*listener, ghost:kdata, ghost:kpos, ghost:nopen if c.opened && ocnt(c) > 0
 //@   ensures c.loop == el && c.fd == old(c.fd) && elwf(el)
-//@   ensures c.opened ==> old(c.opened) && CI(c) && acc(c) == old(acc(c)) && c.cons == old(c.cons) && spos[c.fd] >= old(spos[c.fd])
+//@   ensures c.opened ==> old(c.opened) && CI(c) && acc(c) == old(acc(c)) && c.cons == old(c.cons) && spos[c.fd] >= old(spos[c.fd]) && len(c.buffer) == old(len(c.buffer)) && c.unflushed == old(c.unflushed)
 //@   ensures c.opened ==> forall i :: 0 <= i && i < acc(c) ==> aat(c, i) == old(aat(c, i))
 //@   ensures !c.opened ==> CZ(c)
 //@   ensures !old(c.opened) ==> err == nil
@@ -368,6 +368,7 @@ package gnet
 //@   loop 1:
 //@     invariant el == el$0 && c == c$0 && c.loop == el && c.fd == old(c.fd) && elwf(el) && c.opened && CI(c) && ocnt(c) > 0 && sent >= 0 &&
 //@          acc(c) == old(acc(c)) && c.cons == old(c.cons) && spos[c.fd] >= old(spos[c.fd]) && isET == isET(el) && chunk == el.engine.opts.EdgeTriggeredIOChunk &&
+//@          len(c.buffer) == old(len(c.buffer)) && c.unflushed == old(c.unflushed) &&
 //@          (forall i :: 0 <= i && i < acc(c) ==> aat(c, i) == old(aat(c, i)))
 //
 // conn.write: while the connection stays open the bytes are accepted: appended to the accepted stream (acc / aat); they go to the kernel directly only if nothing older is pending, otherwise (or for the
@@ -392,6 +393,51 @@ package gnet
 //@          (forall i :: 0 <= i && i < old(acc(c)) ==> aat(c, i) == old(aat(c, i))) &&
 //@          (forall j :: 0 <= j && j < len(data$0) - len(data) ==> aat(c, old(acc(c)) + j) == old(data$0[j]))
 //@     modifies spos[c.fd], sdata[c.fd]
+//
+// conn.open: sends the OnOpen reply. Stream connections: the reply is appended to the accepted stream (directly to the
+// kernel, the rest behind what is pending); a write failure other than EAGAIN is returned and nothing else changes.
+//@ func (c *conn) open(buf []byte) (err error)
+//@   requires c != nil && c.loop != nil && elwf(c.loop) && owner[c.fd] != nil && (c.isDatagram ==> c.remote == nil)
+//@   requires !c.isDatagram ==> c.opened && CIx(c) && bufsepw(c, buf)
+//@   arith unchecked sent byte counts stay far below 2^63
+//@   modifies spos[c.fd], sdata[c.fd]
+//@   modifies c.outboundBuffer.ringBuffer.rb, c.outboundBuffer.ringBuffer.rb.* if c.outboundBuffer.ringBuffer.rb != nil, mem(c.outboundBuffer.ringBuffer.rb.buf) if c.outboundBuffer.ringBuffer.rb != nil
+//@   modifies c.outboundBuffer.listBuffer.*, lnodes[c.outboundBuffer.listBuffer], lpoff[c.outboundBuffer.listBuffer], lview[c.outboundBuffer.listBuffer], npos[c.outboundBuffer.listBuffer], nown, lbufs[c.outboundBuffer.listBuffer]
+//@   modifies-each x *linkedlist.node where linkedlist.mine(c.outboundBuffer.listBuffer, x) :: next
+//@   ensures !c.isDatagram ==> CIx(c) && acc(c) >= old(acc(c)) && (err == nil ==> acc(c) == old(acc(c)) + len(buf))
+//@   ensures !c.isDatagram ==> forall i :: 0 <= i && i < old(acc(c)) ==> aat(c, i) == old(aat(c, i))
+//@   ensures !c.isDatagram && err == nil ==> forall j :: 0 <= j && j < len(buf) ==> aat(c, old(acc(c)) + j) == old(buf[j])
+//@   loop 1:
+//@     invariant c == c$0 && !c.isDatagram && c.opened && CIx(c) && bufsepw(c, buf) && arr(buf) == arr(buf$0) && len(buf) <= len(buf$0) &&
+//@          off(buf) == off(buf$0) + (len(buf$0) - len(buf)) && acc(c) == old(acc(c)) + (len(buf$0) - len(buf)) && ocnt(c) == 0 &&
+//@          (forall i :: 0 <= i && i < old(acc(c)) ==> aat(c, i) == old(aat(c, i))) &&
+//@          (forall j :: 0 <= j && j < len(buf$0) - len(buf) ==> aat(c, old(acc(c)) + j) == old(buf$0[j]))
+//@     modifies spos[c.fd], sdata[c.fd]
+//
+// eventloop.open: the first callback of a stream connection. OnOpen is delivered exactly once; its reply is sent (or
+// queued) only while the connection is still open; pending output gets write interest in level-triggered mode.
+// (Client UDP sockets also come through here; that branch is not under contract: requires !c.isDatagram.)
+//@ func (el *eventloop) open(c *conn) (err error)
+//@   requires elwf(el) && c != nil && c.loop == el && !c.isDatagram
+//@   requires CIcore(c) && !c.opened && c.phase == 0 && polled[c.fd] && reg(el.connections, c.fd) == c && nopen[c] == 0 && nclose[c] == 0
+//@   modifies-all-except eventloop, engine, Options, netpoll.Poller, listener, map[int]*listener, ghost:kdata, ghost:kpos, ghost:nopen
+//@   modifies nopen[c]
+//@   ensures c.loop == el && c.fd == old(c.fd) && elwf(el) && nopen[c] == 1
+//@   ensures c.opened ==> CIx(c) && (err == nil ==> CI(c))
+//@   ensures !c.opened ==> CZ(c) && c.phase == 2 && nclose[c] == 1 && reg(el.connections, c.fd) != c
+//
+// register0: a new connection is added to the poller and the registry and opened; if the poller refuses it, its descriptor
+// is closed and it is released without any callback.
+//@ func (el *eventloop) register0(c *conn) (err error)
+//@   requires elwf(el) && c != nil && c.loop == el && !c.isDatagram
+//@   requires CIcore(c) && !c.opened && c.phase == 0 && !polled[c.fd] && reg(el.connections, c.fd) == nil && nopen[c] == 0 && nclose[c] == 0 &&
+//@        el.connections.connCount < 2147483647 && icnt(c) == 0 && ocnt(c) == 0 && c.outboundBuffer.listBuffer.size == 0
+//@   modifies-all-except eventloop, engine, Options, netpoll.Poller, listener, map[int]*listener, ghost:kdata, ghost:kpos, ghost:nopen
+//@   modifies nopen[c], el.connections.connCount, *gfd.monoSeq, mem(c.gfd)
+//@   ensures c.loop == el && c.fd == old(c.fd) && elwf(el)
+//@   ensures nopen[c] == 1 || (nopen[c] == 0 && !c.opened && owner[c.fd] == nil && err != nil && reg(el.connections, c.fd) != c)
+//@   ensures c.opened ==> nopen[c] == 1 && CIx(c) && (err == nil ==> CI(c))
+//@   ensures !c.opened && nopen[c] == 1 ==> CZ(c) && c.phase == 2 && nclose[c] == 1 && reg(el.connections, c.fd) != c
 //
 // conn.writev: same as write for a vector of segments. Proved here: memory safety, the descriptor is only used while the
 // connection is open and with at most IOV_MAX segments, the invariants and the accepted prefix are preserved, failures
@@ -420,16 +466,56 @@ package gnet
 //@     invariant c == c$0 && sent >= 0 && 0 <= rangeindex#2 + 1 && rangeindex#2 + 1 <= len(bs) && pos == len(bs)
 //@     modifies nothing
 //
+// processIO: one epoll event of a stream connection: write before read, EPOLLRDHUP last; works on stale (closed) connections.
+//@ func (c *conn) processIO(fd int, ev netpoll.IOEvent, flags netpoll.IOFlags) (err error)
+//@   requires c != nil && c.loop != nil && elwf(c.loop) && !c.isDatagram
+//@   requires (c.opened ==> CI(c) && len(c.buffer) == 0) && (!c.opened ==> CZ(c))
+//@   arith unchecked event masks are small constants
+//@   modifies-all-except eventloop, engine, Options, netpoll.Poller, listener, map[int]*listener, ghost:kdata, ghost:nopen
+//@   ensures c.loop == old(c.loop) && c.fd == old(c.fd) && elwf(c.loop)
+//@   ensures c.opened ==> old(c.opened) && CI(c) && (err == nil ==> len(c.buffer) == 0)
+//@   ensures !c.opened ==> CZ(c)
+//@   ensures !old(c.opened) ==> err == nil
+//
+// Flush: sends what ReadFrom queued; afterwards pending output is under write interest again (level-triggered mode).
+//@ func (c *conn) Flush() (err error)
+//@   requires c != nil && c.loop != nil && elwf(c.loop)
+//@   requires (c.opened ==> CI(c)) && (!c.opened ==> CZ(c))
+//@   modifies-all-except eventloop, engine, Options, netpoll.Poller, listener, map[int]*listener, ghost:kdata, ghost:kpos, ghost:nopen
+//@   ghostdef c.unflushed := false
+//@   ensures c.loop == old(c.loop) && c.fd == old(c.fd) && elwf(c.loop)
+//@   ensures c.opened ==> old(c.opened) && (err == nil ==> CI(c)) && acc(c) == old(acc(c)) && c.cons == old(c.cons) && len(c.buffer) == old(len(c.buffer))
+//@   ensures c.opened ==> forall i :: 0 <= i && i < acc(c) ==> aat(c, i) == old(aat(c, i))
+//@   ensures !c.opened ==> CZ(c)
+//
+// ReadFrom: everything the reader returns is appended to the accepted stream (it is sent by the next Flush).
+//@ func (c *conn) ReadFrom(r io.Reader) (n int64, err error)
+//@   requires c != nil && c.opened && CI(c) && r != nil
+//@   arith unchecked byte counters stay far below 2^63
+//@   modifies c.outboundBuffer.ringBuffer.rb, c.outboundBuffer.ringBuffer.rb.* if c.outboundBuffer.ringBuffer.rb != nil, mem(c.outboundBuffer.ringBuffer.rb.buf) if c.outboundBuffer.ringBuffer.rb != nil, rpos[ref(r)]
+//@   modifies c.outboundBuffer.listBuffer.*, lnodes[c.outboundBuffer.listBuffer], lpoff[c.outboundBuffer.listBuffer], lview[c.outboundBuffer.listBuffer], npos[c.outboundBuffer.listBuffer], nown, lbufs[c.outboundBuffer.listBuffer]
+//@   modifies-each x *linkedlist.node where linkedlist.mine(c.outboundBuffer.listBuffer, x) :: next
+//@   modifies c.unflushed
+//@   ghostdef c.unflushed := true
+//@   ensures CI(c) && n >= 0 && n == rpos[ref(r)] - old(rpos[ref(r)]) && acc(c) == old(acc(c)) + n
+//@   ensures forall i :: 0 <= i && i < old(acc(c)) ==> aat(c, i) == old(aat(c, i))
+//@   ensures forall j :: 0 <= j && j < n ==> aat(c, old(acc(c)) + j) == rdata[ref(r)][old(rpos[ref(r)]) + j]
+//
+//@ func (c *conn) OutboundBuffered() int
+//@   requires c != nil && elastic.bwf(c.outboundBuffer)
+//@   ensures res == ocnt(c) && res >= 0
+//
 // read: one readable event. Every byte read(2) delivers is offered to OnTraffic as part of the readable view, in stream
 // order; what the handler leaves unconsumed moves behind the older ring content; EAGAIN changes nothing; any other failure
 // or EOF closes the connection with a non-nil error.
 //@ func (el *eventloop) read(c *conn) (err error)
 //@   requires elwf(el) && c != nil && c.loop == el
-//@   requires c.opened ==> CI(c) && len(c.buffer) == 0
+//@   requires (c.opened ==> CI(c) && len(c.buffer) == 0) && (!c.opened ==> CZ(c))
 //@   arith unchecked received byte counts stay far below 2^63
 //@   modifies-all-except eventloop, engine, Options, netpoll.Poller, listener, map[int]*listener, ghost:kdata, ghost:nopen if c.opened
 //@   ensures c.loop == el && c.fd == old(c.fd) && elwf(el)
-//@   ensures c.opened ==> CI(c) && (err == nil ==> len(c.buffer) == 0)
+//@   ensures c.opened ==> old(c.opened) && CI(c) && (err == nil ==> len(c.buffer) == 0)
+//@   ensures !c.opened ==> CZ(c)
 //@   ensures !old(c.opened) ==> err == nil
 //@   loop 1:
 //@     invariant el == el$0 && c == c$0 && c.loop == el && c.fd == old(c.fd) && elwf(el) && c.opened && CI(c) && len(c.buffer) == 0 && recv >= 0
